@@ -149,8 +149,7 @@ instance {R I : Type} [Region R (List UInt8) I] [SameIsEq R] : SameIsEq (Collaps
   ⟨fun a b h => by
     rcases h with h | h
     · exact SameIsEq.eq_of_same (R := R) a b h
-    · simp only [HasEqv.eqv, decide_eq_true_eq] at h
-      exact h.symm⟩
+    · exact ((LawfulEqv.eqv_iff b a).mp h).symm⟩
 
 namespace C04
 /-- **C04** for every catalogued string composition: no hypothesis on `same` left -/
